@@ -1267,10 +1267,28 @@ fn side<R: Rep>(ctx: R::Ctx) -> Side<R> {
     Side { ctx, regs }
 }
 
-fn boxed_ctx(plan: &Plan, m: &[u64], src: ParamsSrc, from_const: Option<BoxedMontyParams>) -> Option<(BCtx, Vec<(String, BoxedMontyParams)>)> {
+/// Parameter construction is an operation of the property like any other: it runs under the monitor.
+fn guarded_params<T>(what: &str, out: &mut RunOut, plan: &Plan, f: impl FnOnce() -> T) -> Option<T> {
+    match guard(f) {
+        Guarded::Done(v) => Some(v),
+        Guarded::Panic(p) => {
+            out.viol(
+                "C11/unexpected-panic",
+                format!("monty:params:{}:{}", what, p.location),
+                format!("{} panicked at {}: {}", what, p.location, p.message),
+                serde_json::to_value(Plan { ops: vec![], ..plan.clone() }).ok(),
+            );
+            None
+        }
+        Guarded::Budget => None,
+    }
+}
+
+fn boxed_ctx(plan: &Plan, m: &[u64], src: ParamsSrc, from_const: Option<BoxedMontyParams>, out: &mut RunOut) -> Option<(BCtx, Vec<(String, BoxedMontyParams)>)> {
     let odd = Option::<Odd<BoxedUint>>::from(Odd::new(boxed_of(m, plan.limbs)))?;
-    let pn = BoxedMontyParams::new(odd.clone());
-    let pv = BoxedMontyParams::new_vartime(odd);
+    let o2 = odd.clone();
+    let pn = guarded_params("BoxedMontyParams::new", out, plan, move || BoxedMontyParams::new(o2))?;
+    let pv = guarded_params("BoxedMontyParams::new_vartime", out, plan, move || BoxedMontyParams::new_vartime(odd))?;
     let mut all = vec![("BoxedMontyParams::new".to_string(), pn.clone()), ("BoxedMontyParams::new_vartime".to_string(), pv.clone())];
     if let Some(fc) = &from_const {
         all.push(("BoxedMontyParams::from_const_params".to_string(), fc.clone()));
@@ -1323,14 +1341,14 @@ macro_rules! const_table_exec {
                         check_params_debug(&dbg, "impl_modulus!", &model, out, plan)?;
                     }
                     let odd = <M as ConstMontyParams<N>>::MODULUS;
-                    let pn = MontyParams::<N>::new(odd);
-                    let pv = MontyParams::<N>::new_vartime(odd);
+                    let Some(pn) = guarded_params("MontyParams::new", out, plan, || MontyParams::<N>::new(odd)) else { return Ok(()) };
+                    let Some(pv) = guarded_params("MontyParams::new_vartime", out, plan, || MontyParams::<N>::new_vartime(odd)) else { return Ok(()) };
                     let pc = MontyParams::<N>::from_const_params::<M>();
                     let all = vec![("MontyParams::new".to_string(), pn), ("MontyParams::new_vartime".to_string(), pv), ("MontyParams::from_const_params".to_string(), pc)];
                     params_oracle(&all, "runtime", &model, plan, out)?;
                     let dp = match plan.src_dyn { ParamsSrc::New => pn, ParamsSrc::NewVartime => pv, ParamsSrc::FromConst => pc };
                     let bfc = BoxedMontyParams::from_const_params::<N, M>();
-                    let Some((bctx, ball)) = boxed_ctx(plan, &m, plan.src_boxed, Some(bfc)) else { return Ok(()) };
+                    let Some((bctx, ball)) = boxed_ctx(plan, &m, plan.src_boxed, Some(bfc), out) else { return Ok(()) };
                     params_oracle(&ball, "boxed", &model, plan, out)?;
                     let bp = bctx.params.clone();
                     let hooks = Hooks::<M, N>(std::marker::PhantomData);
@@ -1351,7 +1369,7 @@ fn exec(plan: &Plan, out: &mut RunOut) {
         }
         let m = &plan.modulus;
         let mut model = Model::new(m, plan.limbs);
-        let Some((bctx, ball)) = boxed_ctx(plan, m, plan.src_boxed, None) else { return Ok(()) };
+        let Some((bctx, ball)) = boxed_ctx(plan, m, plan.src_boxed, None, out) else { return Ok(()) };
         params_oracle(&ball, "boxed", &model, plan, out)?;
         let bp = bctx.params.clone();
         if plan.boxed_only {
@@ -1361,8 +1379,8 @@ fn exec(plan: &Plan, out: &mut RunOut) {
         with_limbs!(plan.limbs, N, {
             let odd = Option::<Odd<Uint<N>>>::from(Odd::new(uint_of::<N>(m)));
             let Some(odd) = odd else { return Ok(()) };
-            let pn = MontyParams::<N>::new(odd);
-            let pv = MontyParams::<N>::new_vartime(odd);
+            let Some(pn) = guarded_params("MontyParams::new", out, plan, || MontyParams::<N>::new(odd)) else { return Ok(()) };
+            let Some(pv) = guarded_params("MontyParams::new_vartime", out, plan, || MontyParams::<N>::new_vartime(odd)) else { return Ok(()) };
             let all = vec![("MontyParams::new".to_string(), pn), ("MontyParams::new_vartime".to_string(), pv)];
             params_oracle(&all, "runtime", &model, plan, out)?;
             let dp = if plan.src_dyn == ParamsSrc::NewVartime { pv } else { pn };
